@@ -254,6 +254,9 @@ PathAddSeg(s, u, seg) ==
   IF s.opts.collapse /\ IsSpecialO(s.opts, u.scheme) /\ u.path # <<>> /\ Last(u.path) = <<>>
   THEN [u EXCEPT !.path = Append(Front(@), seg)]
   ELSE [u EXCEPT !.path = Append(@, seg)]
+PathAddEmpty(s, u) ==     \* a trailing '.' stands for an empty segment; when collapsing it must not follow another empty one
+  IF s.opts.collapse /\ IsSpecialO(s.opts, u.scheme) /\ u.path # <<>> /\ Last(u.path) = <<>> THEN u
+  ELSE [u EXCEPT !.path = Append(@, <<>>)]
 InvalidPct(s) == Cur(s) = 37 /\ ~IsPctTriple(s.input, s.ptr)
 EncPathCp(s, S, c) == IF s.opts.singlePct /\ InvalidPct(s) THEN EncCp(SetAdd(S, {37}), c) ELSE EncCp(S, c)
 
@@ -263,7 +266,7 @@ StPath(s, c) ==
     LET u1 == IF IsDoubleDot(s.buf) THEN
                  (LET us == Shorten(s.u) IN IF ~slash THEN [us EXCEPT !.path = Append(@, <<>>)] ELSE us)
               ELSE IF IsSingleDot(s.buf) THEN
-                 (IF ~slash THEN [s.u EXCEPT !.path = Append(@, <<>>)] ELSE s.u)
+                 (IF ~slash THEN PathAddEmpty(s, s.u) ELSE s.u)
               ELSE LET b1 == IF s.u.scheme = FILE /\ s.u.path = <<>> /\ IsWinLetter(s.buf) /\ ~s.opts.skipDrive
                              THEN <<s.buf[1], 58>> ELSE s.buf
                    IN PathAddSeg(s, s.u, b1)
